@@ -62,6 +62,35 @@ def failing_lemma(path, out):
     return name
 
 
+def identities_check(report, c, where):
+    """ideal-gas identities on the IdealGas trait (reduced units): ideal mixing, Euler relation, pressure; returns #evaluations"""
+    n = 0
+    state = dict(where, T=c["T"], V=c["V"], N=c["N"], total_number_density_per_A3=c["rho"])
+    if not c["finite"]:
+        report("trait_nonfinite", "ideal-gas Helmholtz energy or a derivative is not finite at T=%s V=%s N=%s" % (c["T"], c["V"], c["N"]),
+               {"broken": "IdealGas::ideal_gas_helmholtz_energy (oracle)", "state": state}, True)
+        return 1
+    for m in c["mixing"]:
+        n += 1
+        d = m["mu_mix"] - m["mu_pure"]
+        if not abs(d - m["T_ln_x"]) <= m["tol"]:
+            report("trait_mixing", "ideal mixing violated on the IdealGas trait: (mu_i - mu_i^pure)/T = %.9g, ln x_i = %.9g "
+                   "(x_i = %.3g, rho_i = %.3g /A^3, total density %.3g /A^3, T = %.6g K)" %
+                   (d / c["T"], m["T_ln_x"] / c["T"], m["x"], m["rho_i"], c["rho"], c["T"]),
+                   {"broken": "C10_ideal_mixing on the implementation (oracle, IdealGas::ideal_gas_helmholtz_energy on Dual64)",
+                    "state": state, "mixing": m}, True)
+    n += 2
+    if not abs(c["euler_residual"]) <= c["euler_tol"]:
+        report("trait_euler", "A^ig != -pV + sum mu_i N_i on the IdealGas trait at T=%s V=%s N=%s (residual %.6g)" %
+               (c["T"], c["V"], c["N"], c["euler_residual"]),
+               {"broken": "Euler relation of A_ig (C10_ideal_pressure + C10_ideal_chemical_potential) on the implementation (oracle)",
+                "state": state, "residual": c["euler_residual"], "tol": c["euler_tol"]}, True)
+    if not abs(c["p_residual"]) <= c["p_tol"]:
+        report("trait_pressure", "-dA^ig/dV != rho T on the IdealGas trait at T=%s V=%s N=%s" % (c["T"], c["V"], c["N"]),
+               {"broken": "C10_ideal_pressure on the implementation (oracle)", "state": state, "residual": c["p_residual"]}, True)
+    return n
+
+
 def zero_density_check(sweep):
     """support search: residual quantities scale (at most) linearly with rho down to 1e-12 rho_max"""
     bad = []
@@ -184,6 +213,7 @@ def run(ctx):
         if not d1 <= CP_RTOL:
             report("mix_cp_oracle", "mixture c_p^ig from the Helmholtz energy is not the mole-fraction average of the correlations: %s" % c["records"],
                         {"broken": "C10_joback_mixture / C10_dippr_mixture on the implementation (oracle)", "case": c}, found_input=True)
+        identities_check(report, c["identities"], {"records": c["records"], "models": c["models"], "corner": c.get("corner")})
         if okf:
             goals_ok += len(c["goals"])
         else:
@@ -191,10 +221,13 @@ def run(ctx):
             report("helm_model", "ideal-gas Helmholtz energy model and implementation disagree (%s) for mixture %s at T=%s V=%s N=%s" %
                         (lemma, c["records"], c["T"], c["V"], c["N"]),
                         {"broken": "correspondence gen/C10/%s lemma %s (A = Helmholtz energy, AV/AT/ATT/ANi its derivatives, cp* heat capacity)" % (c["file"], lemma),
-                         "case": c, "coq_error": err}, found_input=which in ("AV", "cpS", "cpD", "cpM", "ATT"))
+                         "case": c, "coq_error": err}, found_input=which in ("AV", "cpS", "cpD", "cpM", "ATT"))  # A/AT/ANi alone: reference constants only
     if impl["mixtures"]:
         c = impl["mixtures"][0]
         samples.append({k: c.get(k) for k in ("records", "T", "V", "N", "A", "A_V", "A_TT", "cp_state")})
+    n_ident = 0
+    for c in impl["trait_sweep"]:
+        n_ident += identities_check(report, c, {"records": c["records"]})
     n_guard = 0
     for gcase in impl["guard"]:
         n_guard += 1
@@ -225,6 +258,14 @@ def run(ctx):
                 report("sum_oracle", "Total != IdealGas + Residual for %s on %s: total %.17g, ideal %.17g, residual %.17g" %
                             (g["getter"], s["config"], g["Total"], g["IdealGas"], g["Residual"]),
                             {"broken": "C10_total_is_sum on the implementation (oracle)", "state": where, "getter": g}, found_input=True)
+        for mc in s["mu_contributions"]:
+            li, lr, lt = mc["len"]
+            si, sr, stot = mc["sum"]
+            tol = SUM_RTOL * 10 * max(mc["scale"], 1e-300)
+            if not (lt == li + lr and li == 1 and abs(stot - (si + sr)) <= tol and abs(si - mc["getter"][0]) <= tol
+                    and abs(sr - mc["getter"][1]) <= tol and abs(stot - mc["getter"][2]) <= tol):
+                report("mu_contributions", "chemical_potential_contributions: Total is not IdealGas ++ Residual / sums differ from chemical_potential on %s" % s["config"],
+                       {"broken": "C10_total_is_sum on chemical_potential_contributions (oracle)", "state": where, "contributions": mc}, True)
         dp = abs(s["p_ig_SI"] - s["rho_SI"] * Q_RGAS * s["T_SI"]) / abs(s["p_ig_SI"])
         if not dp <= 1e-12:
             report("p_si_oracle", "ideal-gas pressure is not rho R T in SI on %s" % s["config"],
@@ -294,6 +335,8 @@ def run(ctx):
         "record_counts": impl["counts"],
         "mixture_cases": len(impl["mixtures"]),
         "guard_cases": n_guard,
+        "trait_identity_evaluations": n_ident,
+        "trait_sweep_states": len(impl["trait_sweep"]),
         "state_cases": len(impl["states"]),
         "states_skipped_nonfinite_or_invalid": impl["states_skipped_nonfinite_or_invalid"],
         "total_is_sum_evaluations": n_sum,
